@@ -24,14 +24,14 @@ theorem joinNL_cons (l : List Token) (ls : List (List Token)) (h : ls ≠ []) :
   | nil => exact absurd rfl h
   | cons m rest => rfl
 
-/-- non-empty newline-free lines joined by newlines form a good block -/
-theorem blockOk_joinNL (ls : List (List Token)) (hne : ls ≠ [])
-    (h : ∀ l ∈ ls, l ≠ [] ∧ Token.newLine ∉ l) : blockOk (joinNL ls) = true := by
+/-- good blocks joined by newlines form a good block -/
+theorem blockOk_joinNL' (ls : List (List Token)) (hne : ls ≠ [])
+    (h : ∀ l ∈ ls, blockOk l = true) : blockOk (joinNL ls) = true := by
   induction ls with
   | nil => exact absurd rfl hne
   | cons l ls ih =>
-    have hl := h l (by simp)
-    have hbl : blockOk l = true := blockOk_of_noNL l hl.1 (fun t ht hnl => hl.2 (hnl ▸ ht))
+    have hbl : blockOk l = true := h l (by simp)
+    have hl : l ≠ [] := by intro e; subst e; simp [blockOk] at hbl
     cases ls with
     | nil => simpa [joinNL] using hbl
     | cons m rest =>
@@ -41,7 +41,7 @@ theorem blockOk_joinNL (ls : List (List Token)) (hne : ls ≠ [])
       simp only [blockOk, Bool.and_eq_true] at hM hbl ⊢
       constructor
       · cases hl' : l with
-        | nil => exact absurd hl' hl.1
+        | nil => exact absurd hl' hl
         | cons a b => rw [hl'] at hbl; simpa using hbl.1
       · rw [List.append_assoc, List.cons_append]
         apply noAdjNL_append_block l _ (by simp only [blockOk, Bool.and_eq_true]; exact hbl) hM.2
@@ -54,6 +54,12 @@ theorem blockOk_joinNL (ls : List (List Token)) (hne : ls ≠ [])
           have := hM.1
           simp only [decide_eq_true_eq] at this
           rw [← htr.1]; exact this
+
+/-- non-empty newline-free lines joined by newlines form a good block -/
+theorem blockOk_joinNL (ls : List (List Token)) (hne : ls ≠ [])
+    (h : ∀ l ∈ ls, l ≠ [] ∧ Token.newLine ∉ l) : blockOk (joinNL ls) = true :=
+  blockOk_joinNL' ls hne (fun l hl =>
+    blockOk_of_noNL l (h l hl).1 (fun t ht hnl => (h l hl).2 (hnl ▸ ht)))
 
 /-! ## more list combinators on printed items -/
 
@@ -123,6 +129,69 @@ theorem many1_items_ok {α β : Type} (p : Parser β) (enc : α → List Token) 
   · rfl
   · have := length_flatMap_ge enc xs (fun y hy => hne y (by simp [hy]))
     simp only [List.length_append]; omega
+
+/-- `many0` over printed items of which the LAST has its own read-back fact (it needs a stronger continuation
+than the others: a definition at the end of a body) -/
+theorem many0Fuel_items_last {α β : Type} (p : Parser β) (enc : α → List Token) (g : α → β)
+    (okTail : List Token → Bool) (xs : List α) (z : α) (rest : List Token)
+    (hp : ∀ x ∈ xs, ∀ r, okTail r = true → p (enc x ++ r) = .ok (g x) r)
+    (hne : ∀ x ∈ xs, enc x ≠ []) (hzne : enc z ≠ []) (henc : ∀ x r, okTail (enc x ++ r) = true)
+    (hz : p (enc z ++ rest) = .ok (g z) rest) (hstop : p rest = .err) (k : Nat) (hk : xs.length + 1 < k) :
+    many0Fuel p k (xs.flatMap enc ++ (enc z ++ rest)) = .ok (xs.map g ++ [g z]) rest := by
+  induction xs generalizing k with
+  | nil =>
+    cases k with
+    | zero => omega
+    | succ k =>
+      cases k with
+      | zero => simp at hk
+      | succ k =>
+        have hlen : 0 < (enc z).length := List.length_pos_iff.mpr hzne
+        have : ¬ (rest.length == (enc z ++ rest).length) = true := by
+          simp only [List.length_append, beq_iff_eq]; omega
+        simp [many0Fuel, hz, hstop, Outcome.map, hzne]
+  | cons x xs ih =>
+    cases k with
+    | zero => omega
+    | succ k =>
+      have hnext : okTail (xs.flatMap enc ++ (enc z ++ rest)) = true := by
+        cases xs with
+        | nil => simpa using henc z rest
+        | cons y ys => simpa [List.flatMap_cons, List.append_assoc] using henc y _
+      have hx := hp x (by simp) _ hnext
+      have hlen : 0 < (enc x).length := List.length_pos_iff.mpr (hne x (by simp))
+      simp only [List.flatMap_cons, List.append_assoc, many0Fuel, hx]
+      have : ¬ ((xs.flatMap enc ++ (enc z ++ rest)).length ==
+          (enc x ++ (xs.flatMap enc ++ (enc z ++ rest))).length) = true := by
+        simp only [List.length_append, beq_iff_eq]; omega
+      simp only [this, if_false]
+      rw [ih (fun y hy => hp y (by simp [hy])) (fun y hy => hne y (by simp [hy])) k (by simp at hk; omega)]
+      rfl
+
+theorem many1_items_last {α β : Type} (p : Parser β) (enc : α → List Token) (g : α → β)
+    (okTail : List Token → Bool) (xs : List α) (z : α) (rest : List Token)
+    (hp : ∀ x ∈ xs, ∀ r, okTail r = true → p (enc x ++ r) = .ok (g x) r)
+    (hne : ∀ x ∈ xs, enc x ≠ []) (hzne : enc z ≠ []) (henc : ∀ x r, okTail (enc x ++ r) = true)
+    (hz : p (enc z ++ rest) = .ok (g z) rest) (hstop : p rest = .err) :
+    many1 p ((xs ++ [z]).flatMap enc ++ rest) = .ok ((xs ++ [z]).map g) rest := by
+  cases xs with
+  | nil =>
+    have hlen : 0 < (enc z).length := List.length_pos_iff.mpr hzne
+    simp [many1, hz, many0Fuel, hstop, Outcome.map, hzne]
+  | cons x xs =>
+    have hnext : okTail (xs.flatMap enc ++ (enc z ++ rest)) = true := by
+      cases xs with
+      | nil => simpa using henc z rest
+      | cons y ys => simpa [List.flatMap_cons, List.append_assoc] using henc y _
+    have hx := hp x (by simp) _ hnext
+    have h0 := many0Fuel_items_last p enc g okTail xs z rest (fun y hy => hp y (by simp [hy]))
+      (fun y hy => hne y (by simp [hy])) hzne henc hz hstop
+      ((xs.flatMap enc ++ (enc z ++ rest)).length + 1) (by
+        have := length_flatMap_ge enc xs (fun y hy => hne y (by simp [hy]))
+        have hlen : 0 < (enc z).length := List.length_pos_iff.mpr hzne
+        simp only [List.length_append]; omega)
+    simp only [List.cons_append, List.flatMap_cons, List.flatMap_append, List.flatMap_nil, List.append_nil,
+      List.append_assoc, many1, hx, h0, Outcome.map, List.map_cons, List.map_append, List.map_nil]
 
 /-! ## `%variable` parameter lists -/
 
